@@ -201,6 +201,10 @@ type fwdHist struct {
 	pidBits        int
 	sidChanged     bool
 	kfCount        int
+	// state shifts (VerifShift): all deltas moved by shiftK; numbers sent
+	// before a shift are no longer tracked
+	shiftK  uint16
+	shifted bool
 }
 
 func newFwdHist(t *tr.Trace, r *tr.Rand, stream string, vp8 bool, cacheCap int) *fwdHist {
@@ -371,8 +375,8 @@ func (h *fwdHist) write(buf []byte, inCache bool, kf bool) {
 		h.t.Checked("C01.number")
 		if h.isWithheld(r) {
 			h.t.Fail("C01", "withheld_never_forwarded", fmt.Sprintf("withheld packet %d forwarded later as %d", r, o))
-		} else if o != uint16(r-h.before(r)) {
-			h.t.Fail("C01", "number", fmt.Sprintf("packet %d forwarded as %d, expected %d", r, o, uint16(r-h.before(r))))
+		} else if o != uint16(r-h.before(r))+h.shiftK {
+			h.t.Fail("C01", "number", fmt.Sprintf("packet %d forwarded as %d, expected %d", r, o, uint16(r-h.before(r))+h.shiftK))
 		}
 		if prev, ok := h.sent[o]; ok && prev.src != s {
 			h.t.Fail("C01", "injective", fmt.Sprintf("packets %d and %d both forwarded as %d", prev.src, s, o))
@@ -494,6 +498,9 @@ func (h *fwdHist) nack(os []uint16) {
 			continue
 		}
 		prev, ok := h.sent[o]
+		if !ok && h.shifted {
+			continue // sent before a state shift: only the model comparison applies
+		}
 		if !ok {
 			h.t.Fail("C03", "same_or_nothing", fmt.Sprintf("NACK of %d answered although nothing was sent under that number", o))
 			continue
@@ -509,6 +516,27 @@ func (h *fwdHist) nack(os []uint16) {
 		}
 	}
 }
+
+// shift moves every delta of the packet map (hook VerifShift), as if dk fewer
+// packets in dpid more frames had been withheld long ago: reaches deltas
+// around the 16-bit wrap, which real histories reach only after tens of
+// thousands of withheld packets.
+func (h *fwdHist) shift(dk, dpid uint16) {
+	ok := h.v.MapShift(dk, dpid)
+	h.t.Op(tr.B(ok), "shift", dk, dpid)
+	if !ok {
+		return
+	}
+	h.shiftK += dk
+	h.shifted = true
+	h.sent = map[uint16]sentRec{}
+	h.droppedFrames += int(dpid)
+	h.haveFwdPid = false
+	h.t.Note("state-shift")
+}
+
+// currentDelta is the map's sequence-number delta according to the reference.
+func (h *fwdHist) currentDelta() uint16 { return h.shiftK - uint16(len(h.withheld)) }
 
 func (h *fwdHist) adjust() {
 	b := unpackLayer(h.v.Layer())
@@ -720,6 +748,25 @@ func runForward(t *tr.Trace, r *tr.Rand, n int) {
 				default:
 					h.dump()
 				}
+			}
+			if r.Chance(1, 40) && len(h.withheld) > 0 {
+				// move the deltas: to zero (seqno delta wrapped all the way round
+				// while frames were withheld), next to zero, or anywhere
+				d := h.currentDelta()
+				var dk uint16
+				switch r.Pick(3, 2, 2) {
+				case 0:
+					dk = -d
+				case 1:
+					dk = -d + uint16(r.Range(1, 3)) - 2
+				default:
+					dk = uint16(r.U64())
+				}
+				dpid := uint16(r.Intn(3) * r.Intn(32768))
+				if r.Chance(1, 3) {
+					dpid = uint16(-h.droppedFrames) // picture-id delta back to zero
+				}
+				h.shift(dk, dpid)
 			}
 		}
 		h.dump()
